@@ -78,3 +78,107 @@ theorem ofNum_rat_eq_exact : DivArith.ofNum ℚ = DivArith.exact := by
       rw [h1, h2]
 
 end Rubato.DivBridge
+
+namespace Rubato.DivBridge
+
+/-! ### the `f32` divisions are exact for sizes below 2²⁴
+
+The synchronous resamplers compute `⌈a/b⌉` and `⌊a/b⌋` as `(a as f32 / b as f32).ceil()` / `.floor()`.  No IEEE library
+is available here, so the rounding is a parameter `rnd : ℚ → ℚ` with the three textbook properties of round-to-nearest
+binary32 (monotone; integers up to 2²⁴ are representable; relative error at most 2⁻²⁴).  For every such rounding and all
+sizes `a < 2²⁴`, `b > 0` the rounded quotient has the SAME ceiling and floor as the exact one — so `DivArith.exact` is what
+the code computes for every block size the crate can meet in practice.  Beyond 2²⁴ the statement is false (`a = 2²⁴+1`,
+`b = 1` already loses the unit). -/
+
+structure F32Rounding (rnd : ℚ → ℚ) : Prop where
+  mono : ∀ x y, x ≤ y → rnd x ≤ rnd y
+  fixInt : ∀ n : ℕ, n ≤ 2 ^ 24 → rnd (n : ℚ) = (n : ℚ)
+  relErr : ∀ x : ℚ, 0 ≤ x → |rnd x - x| ≤ x / 2 ^ 24
+
+theorem f32_quotient_same_ceil_floor {rnd : ℚ → ℚ} (hr : F32Rounding rnd) (a b : ℕ) (ha : a < 2 ^ 24) (hb : 0 < b) :
+    ⌈rnd ((a : ℚ) / b)⌉ = ⌈(a : ℚ) / b⌉ ∧ ⌊rnd ((a : ℚ) / b)⌋ = ⌊(a : ℚ) / b⌋ := by
+  have hbq : (0 : ℚ) < b := by exact_mod_cast hb
+  set x : ℚ := (a : ℚ) / b with hx
+  have hx0 : 0 ≤ x := div_nonneg (by positivity) hbq.le
+  have haq : (a : ℚ) < 2 ^ 24 := by exact_mod_cast ha
+  -- the quotient is below 2^24 / b, hence the rounding error is below 1/b
+  have herr : |rnd x - x| < 1 / b := by
+    have h1 := hr.relErr x hx0
+    have h2 : x / 2 ^ 24 < 1 / b := by
+      rw [hx, div_div, div_lt_div_iff₀ (by positivity) hbq]
+      nlinarith
+    exact lt_of_le_of_lt h1 h2
+  have herr' := abs_lt.mp herr
+  -- integer part of the exact quotient
+  have hfl : ⌊x⌋ = ((a / b : ℕ) : ℤ) := floor_natdiv a b
+  set k : ℕ := a / b with hk
+  have hkle : (k : ℚ) ≤ x := by
+    rw [hx, le_div_iff₀ hbq]; exact_mod_cast Nat.div_mul_le_self a b
+  have hklt : x < (k : ℚ) + 1 := by
+    rw [hx, div_lt_iff₀ hbq]
+    have := Nat.lt_div_mul_add hb (a := a)
+    have h' : a < (k + 1) * b := by rw [hk]; nlinarith [Nat.div_add_mod a b, Nat.mod_lt a hb]
+    exact_mod_cast h'
+  have hk24 : k ≤ 2 ^ 24 := by
+    have : k ≤ a := Nat.div_le_self a b
+    omega
+  have hk24' : k + 1 ≤ 2 ^ 24 := by
+    have : k ≤ a := Nat.div_le_self a b
+    omega
+  have hrk : rnd (k : ℚ) = (k : ℚ) := hr.fixInt k hk24
+  have hrk1 : rnd ((k : ℚ) + 1) = (k : ℚ) + 1 := by
+    have := hr.fixInt (k + 1) hk24'
+    push_cast at this; exact this
+  have hlow : (k : ℚ) ≤ rnd x := by rw [← hrk]; exact hr.mono _ _ hkle
+  have hhigh : rnd x ≤ (k : ℚ) + 1 := by rw [← hrk1]; exact hr.mono _ _ hklt.le
+  -- distance of x to the integers above and below is a multiple of 1/b
+  have hmod : (x - k) * b = ((a % b : ℕ) : ℚ) := by
+    have h := Nat.div_add_mod a b
+    have : (a : ℚ) = b * k + (a % b : ℕ) := by rw [hk]; exact_mod_cast h.symm
+    rw [hx]; field_simp; linarith
+  by_cases hz : a % b = 0
+  · -- exact quotient is the integer k: the rounding leaves it alone
+    have hxk : x = k := by
+      have : (x - k) * b = 0 := by rw [hmod, hz]; simp
+      have : x - k = 0 := by
+        rcases mul_eq_zero.mp this with h | h
+        · exact h
+        · exact absurd h hbq.ne'
+      linarith
+    rw [hxk, hrk]; exact ⟨rfl, rfl⟩
+  · have hpos : 1 ≤ a % b := Nat.one_le_iff_ne_zero.mpr hz
+    have hlt : a % b < b := Nat.mod_lt a hb
+    have hxk1 : 1 / (b : ℚ) ≤ x - k := by
+      rw [div_le_iff₀ hbq, hmod]; exact_mod_cast hpos
+    have hxk2 : 1 / (b : ℚ) ≤ (k : ℚ) + 1 - x := by
+      rw [div_le_iff₀ hbq]
+      have : ((k : ℚ) + 1 - x) * b = (b : ℚ) - ((a % b : ℕ) : ℚ) := by rw [← hmod]; ring
+      rw [this]
+      have : ((a % b : ℕ) : ℚ) + 1 ≤ b := by exact_mod_cast hlt
+      linarith
+    have h1 : (k : ℚ) < rnd x := by linarith [herr'.1]
+    have h2 : rnd x < (k : ℚ) + 1 := by linarith [herr'.2]
+    have hxgt : (k : ℚ) < x := by linarith [div_pos one_pos hbq]
+    have hc1 : ⌈rnd x⌉ = (k : ℤ) + 1 := Int.ceil_eq_iff.mpr ⟨by push_cast; linarith, by push_cast; linarith⟩
+    have hc2 : ⌈x⌉ = (k : ℤ) + 1 := Int.ceil_eq_iff.mpr ⟨by push_cast; linarith, by push_cast; linarith⟩
+    have hf1 : ⌊rnd x⌋ = (k : ℤ) := Int.floor_eq_iff.mpr ⟨by push_cast; linarith, by push_cast; linarith⟩
+    exact ⟨by rw [hc1, hc2], by rw [hf1, hfl]⟩
+
+/-- the two divisions evaluated through a rounding `rnd` of the quotient -/
+def ofRounding (rnd : ℚ → ℚ) : DivArith where
+  cdiv a b := ⌈rnd ((a : ℚ) / b)⌉.toNat
+  fdiv a b := ⌊rnd ((a : ℚ) / b)⌋.toNat
+
+theorem ofRounding_eq_exact {rnd : ℚ → ℚ} (hr : F32Rounding rnd) (a b : ℕ) (ha : a < 2 ^ 24) (hb : 0 < b) :
+    (ofRounding rnd).cdiv a b = DivArith.exact.cdiv a b ∧ (ofRounding rnd).fdiv a b = DivArith.exact.fdiv a b := by
+  obtain ⟨h1, h2⟩ := f32_quotient_same_ceil_floor hr a b ha hb
+  refine ⟨?_, ?_⟩
+  · show ⌈rnd ((a : ℚ) / b)⌉.toNat = (a + b - 1) / b
+    rw [h1, ceil_natdiv]; exact Int.toNat_natCast _
+  · show ⌊rnd ((a : ℚ) / b)⌋.toNat = a / b
+    rw [h2, floor_natdiv]; exact Int.toNat_natCast _
+
+/-- the hypotheses are satisfiable: the identity (exact arithmetic) is such a rounding -/
+example : F32Rounding (fun x => x) := ⟨fun _ _ h => h, fun _ _ => rfl, fun x hx => by simp; positivity⟩
+
+end Rubato.DivBridge
